@@ -269,6 +269,33 @@ def r20_3(ctx, repo):
                     'limits are attached to the wrong time points' % (
                         k, ', '.join(v[1])))
                 ok = False
+            # the limits are read from all rows of one band: a frame that
+            # drops rows (missing limits at some times) no longer lines up
+            # with the full time vector
+            DROPS = ('dropna', 'drop_duplicates', 'head', 'tail', 'sample',
+                     'query', 'nlargest', 'nsmallest')
+            for nm in ynames:
+                d = defs.get(nm, []) if nm else []
+                if not d:
+                    continue
+                frames = [x for x in ast.walk(d[-1].value)
+                          if isinstance(x, ast.Name) and x.id in defs]
+                chain = [d[-1].value] + [defs[f.id][-1].value
+                                         for f in frames]
+                dropped = [c.func.attr for v in chain for c in ast.walk(v)
+                           if isinstance(c, ast.Call) and isinstance(
+                               c.func, ast.Attribute)
+                           and c.func.attr in DROPS]
+                if dropped:
+                    ctx.violation(
+                        rule, where, construct, 'rows dropped ' + nm,
+                        'the band limits `%s` are read after `%s()` removed '
+                        'rows, while the x-coordinates are all time points: '
+                        'when a limit is undefined at some times the '
+                        'remaining limits are drawn at the wrong times' % (
+                            nm, dropped[0]))
+                    ok = False
+                    break
             if ok:
                 ctx.ok(rule, where, construct,
                        'band polygon: x = [t, reversed t], y = [upper, '
@@ -287,6 +314,18 @@ def r20_3(ctx, repo):
             recv = U(r.func.value)
             pct = any(k.arg == 'pct' and isinstance(k.value, ast.Constant)
                       and k.value.value is True for k in r.keywords)
+            dense = [k for k in r.keywords if k.arg == 'method' and not (
+                isinstance(k.value, ast.Constant) and k.value.value in (
+                    'average', 'min', 'max', 'first'))]
+            if dense:
+                ctx.violation(
+                    rule, where, construct, 'rank method',
+                    '`%s` ranks with method=%s: the percentile of a sample '
+                    'is then a fraction of the *distinct* values, not of '
+                    'the samples, so with repeated values a band holds '
+                    'less than the requested share of the samples' % (
+                        U(r)[:50], U(dense[0].value)))
+                continue
             # the ranked series must be the per-time frame
             loop = None
             cur = getattr(r, '_parent', None)
